@@ -653,6 +653,18 @@ func (x *Expander) declareGlob(s *gen.LStmt, cur *gObj) {
 		appliedObj: map[*gObj]bool{}, appliedEdge: map[*gEdge]bool{}, appliedPair: map[[2]*gObj]bool{}}
 	x.info.Globs++
 	for _, o := range x.active {
+		if o.scope != cur && gen.LRender([]*gen.LStmt{o.stmt}) == gen.LRender([]*gen.LStmt{s}) {
+			// evidence: the same glob text is active in an enclosing scope; both are judged as
+			// independent declarations with their own lexical scope
+			x.feat("same_glob_text_active_in_enclosing_scope")
+		}
+	}
+	for _, o := range x.closed {
+		if gen.LRender([]*gen.LStmt{o.stmt}) == gen.LRender([]*gen.LStmt{s}) {
+			x.feat("same_glob_text_in_closed_nested_or_sibling_scope")
+		}
+	}
+	for _, o := range x.active {
 		if o.scope != cur || o.stmt.Head() != s.Head() {
 			continue
 		}
